@@ -1,5 +1,5 @@
 """C11 — MCMC rewiring preserves vertices, degrees and motif structure.
-Model: coq/Model/Mcmc.v; proofs coq/Proofs/McmcP.v; theorems coq/Props/C11.v."""
+Model: coq/Model/Mcmc.v; proofs coq/Proofs/McmcP.v, McmcCheckP.v, McmcFail.v; theorems coq/Props/C11.v."""
 from harness.props import mcmc_common as mc
 
 ID = "C11"
@@ -20,7 +20,12 @@ RULE = ("clean motif networks (2-/3-cliques from the real generator under script
 EXHAUSTIVE = {"quick": False, "thorough": False}
 EXPLANATION = ("general theorems (all clean networks, all targets, all oracle streams, any number of swaps) in "
                "Props/C11.v; correspondence on generated small networks with scripted randomness; verified checker "
-               "on every intermediate graph of real runs up to 600 vertices / 2000 swaps (thorough)")
+               "on every intermediate graph of real runs up to 600 vertices / 2000 swaps (thorough). The invariant "
+               "theorems are no longer vacuous for raising runs: C11_no_apply_failure / C11_failure_site prove that a "
+               "run on a well-formed network never fails in the apply step and classify the error statuses that remain "
+               "(invalid oracle answer; IndexError from a too short vertex annotation or an edgeless network; the "
+               "zero-denominator ErrorMarkovChainMonteCarloRewiring); C11_clean_run_never_fails excludes all of them "
+               "under stated preconditions")
 ASSUMPTIONS = ["random.choice(seq) returns seq[i] for the scripted i; random.random() returns the scripted dyadic",
                "networkx Graph.copy / add_edge / remove_edge / has_edge / adjacency iteration behave as modelled "
                "(adjacency order is an oracle answer the model validates as a permutation of its own corner)"]
@@ -43,7 +48,24 @@ LEVEL_TEXT = (
     "violated clause; they are proved to accept every state of every model run (hard: both id rules; hard + shape: "
     "repaired rule) and check_shape is proved to reject the refuting run. They judge every intermediate graph of "
     "the real rewire(); the model is compared with the real "
-    "code after every accepted swap under scripted randomness, incl. second calls on the same object.")
+    "code after every accepted swap under scripted randomness, incl. second calls on the same object. "
+    "ADMISSIBLE RUNS DO NOT FAIL (growth 2, Proofs/McmcFail.v; general, both id rules; a failed run returns the "
+    "unchanged last state, so without this the invariant theorems hold trivially for raising runs): "
+    "C11_no_apply_failure - at every configuration of every run on a well-formed network at which the Metropolis "
+    "test is due (suitable accepted the pair, the swap condition delivered proposals) apply_swap returns Ok: no 'edge "
+    "already present', no networkx / draw-set error, no edge-count mismatch; C11_apply_after_accept - the same at "
+    "method level for ANY well-formed graph and any corners that are permutations of the real ones (plus mirror and "
+    "hard clauses of the result); C11_failure_site - a run that ends in the error state either started without "
+    "edges (random.choice([]), IndexError) or failed at its last configuration with the state untouched at one of "
+    "exactly three sites: invalid oracle answer (protocol status, C11_invalid_answer_is_protocol gives the converse), "
+    "IndexError from jd[index] in the swap condition (an edge of the current graph has an end point whose annotation "
+    "is shorter than the edge's topology index), zero denominator of the swap condition "
+    "(ErrorMarkovChainMonteCarloRewiring); KeyError, NetworkXError, the hashmap pop errors of swap_condition and both "
+    "ErrorMCMC of apply are proved impossible (C11_swap_condition_errors, C11_failure_causes: E_INDEX only if the "
+    "start network is edgeless or annotb fails on it, E_MCMC only if some stored weight is not positive); "
+    "C11_clean_run_never_fails - with >= 1 edge, annotb, positive weights and valid oracle answers (script_okb) the "
+    "status is Finished or Exhausted (script ended first). Each remaining status is shown to occur "
+    "(C11_failures_do_occur).")
 LEVEL_NOTE = ("Trusted: Coq kernel; extraction + OCaml driver + Python harness for the correspondence; networkx primitives "
               "as modelled. Modelled, not verified: adjacency order (oracle answer, validated as a permutation), G.copy(). "
               "Checkers are decision procedures for Hard / Shape (equivalences proved). Open finding C11b reported as KNOWN-FINDING; the check "
